@@ -138,6 +138,14 @@ def run_case(res, case):
             if not close(tj, exp):
                 return viol("wrong_value" if onp.shape(tj) == onp.shape(exp) else "wrong_shape", "tensor_jacobian_product: %s vs %s" % (common.brief(onp.asarray(tj)), common.brief(exp)), "tensor_jacobian_product")
             ops_checked.append("tensor_jacobian_product")
+            # the second public name of the same operator must behave identically (it may be a separate function)
+            import autograd.differential_operators as DO
+
+            if hasattr(DO, "vector_jacobian_product"):
+                tj2 = DO.vector_jacobian_product(f_ag, 1)(a0, x0, b0, g, scale=scale)
+                if not close(tj2, exp):
+                    return viol("wrong_value" if onp.shape(tj2) == onp.shape(exp) else "wrong_shape", "vector_jacobian_product: %s vs %s" % (common.brief(onp.asarray(tj2)), common.brief(exp)), "vector_jacobian_product")
+                ops_checked.append("vector_jacobian_product")
             eg = elementwise_grad(f_ag, 1)(a0, x0, b0, scale=scale)
             if not close(eg, Jt.reshape((m,) + in_shape).sum(axis=0)):
                 return viol("wrong_value", "elementwise_grad != sum_out J", "elementwise_grad")
@@ -230,6 +238,21 @@ def run_case(res, case):
             if not close(vg, gexp):
                 return viol("wrong_value", "value_and_grad grad deviates", "value_and_grad")
             ops_checked.append("value_and_grad")
+            # size-1 outputs that are not 0-d are accepted as "scalar": the value comes back untouched (shape, dtype, bits)
+            for oshp in ((1,), (1, 1)):
+                L1 = lambda a, x, b, scale=1.0: anp.reshape(L_ag(a, x, b, scale=scale), oshp)
+                plain1 = L1(a0, x0, b0, scale=scale)
+                vv1, vg1 = value_and_grad(L1, 1)(a0, x0, b0, scale=scale)
+                if find_boxes(vv1) or onp.shape(vv1) != oshp or not bits_equal(onp.asarray(vv1), onp.asarray(plain1)):
+                    return viol("primal_mismatch", "value_and_grad of a size-1 output of shape %s returned the value %r (plain call: %r)" % (oshp, vv1, plain1), "value_and_grad:size1")
+                if not close(vg1, gexp):
+                    return viol("wrong_value", "value_and_grad (size-1 output %s) gradient deviates" % (oshp,), "value_and_grad:size1")
+                g1_ = grad(L1, 1)(a0, x0, b0, scale=scale)
+                if not close(g1_, gexp):
+                    return viol("wrong_value", "grad of a size-1 output of shape %s deviates" % (oshp,), "grad:size1")
+            if hasattr(DO, "hessian_vector_product"):
+                pass
+            ops_checked.append("value_and_grad:size1")
             aux_obj = {"k": onp.array([1.0, 2.0]), "y": onp.asarray(y0)}
             ga, aux = grad_and_aux(lambda a, x, b: (L_ag(a, x, b, scale=scale), f_ag(a, x, b, scale=scale) * 1.0), 1)(a0, x0, b0)
             if find_boxes(aux) or not common.values_equal_nan(onp.asarray(aux), onp.asarray(y0)):
@@ -344,6 +367,13 @@ def run_case(res, case):
                 if not close(hv, hexp, tolH):
                     return viol("wrong_value" if onp.shape(hv) == onp.shape(hexp) else "wrong_shape", "hessian_tensor_product deviates", "hessian_tensor_product")
                 ops_checked.append("hessian_tensor_product")
+                import autograd.differential_operators as DO2
+
+                if hasattr(DO2, "hessian_vector_product"):
+                    hv_b = DO2.hessian_vector_product(L_ag, 1)(a0, x0, b0, vt, scale=scale)
+                    if not close(hv_b, hexp, tolH):
+                        return viol("wrong_value" if onp.shape(hv_b) == onp.shape(hexp) else "wrong_shape", "hessian_vector_product deviates", "hessian_vector_product")
+                    ops_checked.append("hessian_vector_product")
                 hv2 = make_hvp(L_ag, 1)(a0, x0, b0, scale=scale)[0](vt)
                 if not close(hv2, hexp, tolH):
                     return viol("wrong_value", "make_hvp deviates", "make_hvp")
